@@ -45,14 +45,16 @@ fn execute(case: &(Vec<usize>, Vec<usize>), ctx: &WorkerCtx) -> ExecResult {
 
 /// Frames that share a segment with the handshake acknowledgement (and half of one more frame), read back through
 /// `receive_raw` (mode 0) or through the read half that `take_read_half` hands over (mode 1).
-fn handover_exec(case: &(usize, usize), ctx: &WorkerCtx) -> ExecResult {
-    let (nframes, mode) = *case;
+fn handover_exec(case: &(usize, usize, Option<usize>), ctx: &WorkerCtx) -> ExecResult {
+    let (nframes, mode, cut_at) = *case;
     run_rt(async move {
         let mut res = ExecResult::default();
         let to = vcore::refval::RefVal::Pid { node: "me@127.0.0.1".into(), id: 1, serial: 0, creation: 1 };
         let bodies: Vec<Vec<u8>> = (0..nframes + 1).map(|i| { let f = crate::procs::send_to(&to, vcore::refval::RefVal::Tuple(vec![vcore::refval::RefVal::atom("early"), vcore::refval::RefVal::int(i as i64)])); f[4..].to_vec() }).collect();
         let stream: Vec<u8> = bodies.iter().flat_map(|m| frame(m, 4)).collect();
-        let cut = stream.len() - (bodies[nframes].len() + 4) / 2;
+        // default: the last frame is cut in the middle; otherwise the whole stream follows the acknowledgement in two
+        // segments that meet at `cut_at` (0 = nothing rides with the acknowledgement)
+        let cut = cut_at.map(|c| c.min(stream.len())).unwrap_or(stream.len() - (bodies[nframes].len() + 4) / 2);
         let mut cw = match crate::c07::conn_world_with(ctx, flags_default(), flags_default(), &stream[..cut]).await { Ok(x) => x, Err(e) => { res.violations.push(("could not establish the connection under a conforming peer".into(), json!({"error": e}))); return res; } };
         cw.w.gates.set_active(&[]);
         let got: Arc<Mutex<Vec<Result<Vec<u8>, String>>>> = Arc::new(Mutex::new(vec![]));
@@ -99,7 +101,9 @@ pub fn run(rep: &Report) -> Value {
         for a in 1..total { cases.push((s.clone(), vec![a])); for b in (a + 1)..total { if thorough || total <= 10 || (a + b) % 3 == 0 { cases.push((s.clone(), vec![a, b])); } } }
     }
     let st: Stats = for_all(rep, "socket chunkings", &cases, |c, ctx| execute(c, ctx));
-    let hand: Vec<(usize, usize)> = [0usize, 1, 2, 5].iter().flat_map(|&n| [(n, 0usize), (n, 1)]).collect();
+    let mut hand: Vec<(usize, usize, Option<usize>)> = [0usize, 1, 2, 5].iter().flat_map(|&n| [(n, 0usize, None), (n, 1, None)]).collect();
+    // every position of a two-frame stream as the boundary between what rides with the acknowledgement and what follows
+    for cut in 0..=96usize { hand.push((1, 1, Some(cut))); hand.push((1, 0, Some(cut))); }
     let st_h: Stats = for_all(rep, "frames coalesced with the handshake acknowledgement", &hand, |c, ctx| handover_exec(c, ctx));
     json!({
         "states": st.executions + st_h.executions,
@@ -109,6 +113,6 @@ pub fn run(rep: &Report) -> Value {
         "exhaustive": true,
         "distinct_outcomes": st.distinct_outcomes,
         "unstable_failures_not_reported": st.unstable,
-        "rule": "the connection's socket-backed framed reader (receive_raw) fed 7 short frame sequences (ticks, 1..5-byte messages) under every single cut and every pair of cuts of the byte stream (pairs thinned to a third for streams longer than 10 bytes in quick), the peer settling between chunks, then a truncated frame followed by close; plus 8 executions in which the peer's first 0, 1, 2 or 5 frames and half of one more share a TCP segment with the handshake acknowledgement and are read through receive_raw or through the read half handed over by take_read_half",
+        "rule": "the connection's socket-backed framed reader (receive_raw) fed 7 short frame sequences (ticks, 1..5-byte messages) under every single cut and every pair of cuts of the byte stream (pairs thinned to a third for streams longer than 10 bytes in quick), the peer settling between chunks, then a truncated frame followed by close; plus 8 executions in which the peer's first 0, 1, 2 or 5 frames and half of one more share a TCP segment with the handshake acknowledgement and are read through receive_raw or through the read half handed over by take_read_half, and 194 in which a two-frame stream is divided at every byte position between the acknowledgement's segment and a later one",
     })
 }
